@@ -5,6 +5,8 @@ import PbBss.Proofs.EmVmf
 import PbBss.Proofs.FixedPointVmf
 import PbBss.Proofs.FixedPointSph
 import PbBss.Proofs.FixedPointCacgChain
+import PbBss.Proofs.FixedPointGcacg
+import PbBss.Proofs.FixedPointGcacgSliced
 /-! # C03 — the true partition of separable data is a stable EM fixed point
 
 What is proved here (about the SAME definitions `driver_em` / `driver_dist` / `driver_posterior` execute, at
@@ -29,7 +31,10 @@ What is proved here (about the SAME definitions `driver_em` / `driver_dist` / `d
    blurred start (`fixed_point_sph_balanced`; the hard start on noise-free classes has variance 0 — no density);
 7. the **cACG mixture**: the complete `n`-step fixed-point theorem for the balanced scene from the hard start and from
    blurred starts with `h₀ ≤ floor·g₀` (`fixed_point_cacg_balanced`, `_blur`; the trajectory is stationary after the
-   first M-step: every class stays `U diag(1, floor, …, floor) Uᴴ` on its prototype, `cacg_trajectory_stationary`).
+   first M-step: every class stays `U diag(1, floor, …, floor) Uᴴ` on its prototype, `cacg_trajectory_stationary`);
+8. the **integration model GCACGMM** (`prodFamily` of the cACG and the spherical Gaussian family, also with the spatial
+   stream `sliced` over frequency bins as the driver instantiates it): the complete `n`-step fixed-point theorem for the
+   balanced two-stream scene (`fixed_point_gcacg_balanced`, `fixed_point_gcacg_sliced_balanced`).
 
 NOT proved: the quantitative statement for `|cos| ≤ 0.3`, perturbation `≤ 1e-2` (needs eigenvector perturbation
 bounds), the Bingham model, fixed-point statements for the full-covariance Gaussian / integration trainers (their
@@ -868,5 +873,72 @@ example : ∀ n, 1 ≤ n → ∀ obs : Fin 2,
     (fun k => by fin_cases k <;> simp [classMass])
 
 end cacg_fixed_point
+
+/-! ## The integration model GCACGMM: fixed point of the EM loop (`PbBss/Proofs/FixedPointGcacg{,Sliced}.lean`) -/
+section gcacg_fixed_point
+open PbBss.FixedPoint.Gcacg PbBss.FixedPoint.GcacgSliced
+
+/-- **the true partition is a stable fixed point for EVERY number of iterations (GCACGMM, one bin, balanced scene)**.
+Two streams with the same true class: spatial = noise-free observations on complex orthonormal prototypes `a`,
+spectral = embeddings equal to real orthonormal class means `b`; equal class masses, uniform weights, unit stream weights
+(`prodFamily`), `eigh` under its contract, `0 < floor < 1`; start blurred with `0 < h₀ ≤ floor·g₀` (the Gaussian stream has no
+density from the hard start; the cACG stream's first covariance stays spiked).  For every `n ≥ 1`: the level invariant
+(`0 < h ≤ floor·g`, discharged along the whole trajectory, not assumed), every cACG component spiked on its prototype,
+every Gaussian mean `g·b_k + h·Σ_{j≠k} b_j` (closer to its own prototype) with one common positive variance, and the
+arg-max of the E-step — whose log-density gap is the SUM of the two streams' gaps — is the true class. -/
+theorem fixed_point_gcacg_balanced {K N D E : Nat} {a : Fin (K+1) → Fin (D+1) → ℂ} {b : Fin (K+1) → Fin E → ℝ}
+    {c : Fin N → Fin (K+1)} {z : Fin N → Fin (D+1) → ℂ} {y : Fin N → Fin E → ℝ}
+    (sc : Scene a c z) (hb : OrthoProtoR b) (hy : ∀ n d, y n d = b (c n) d)
+    (hK : 1 ≤ K) (eigh : Tab (D+1) (Tab (D+1) ℂ) → Tab (D+1) (Tab (D+1) ℂ) × Tab (D+1) ℝ)
+    (tiny floor tinyG log2pi : ℝ) (heigh : EighOn eigh tiny z) (htiny : 0 < tiny)
+    (h10 : ((10 : ℕ) : ℝ) * tiny ≤ 1) (ht : tiny ≤ 1 / ((K+1 : ℕ) : ℝ)) (hf0 : 0 < floor) (hf1 : floor < 1)
+    (rule : WeightRule) (tie : Tying N) (htie : tie.uniform = true) (eps : ℝ) (s : Fin N → ℝ)
+    (S : ℝ) (hS : tiny ≤ S) (hbal : ∀ k, classMass c s k = S) (hguard : tinyG ≤ S)
+    (g₀ h₀ : ℝ) (hgh : g₀ + K * h₀ = 1) (hh0 : 0 < h₀) (hlt : h₀ ≤ floor * g₀) (n : Nat) (hn : 1 ≤ n) :
+    let fam := prodFamily (cacgFamily D eigh CovNorm.eigenvalue floor tiny) (sphFamily E tinyG log2pi)
+    let yz : Fin N → (Fin (D+1) → ℂ) × (Fin E → ℝ) := fun m => (z m, y m)
+    let θ := fit tiny fam rule tie eps s yz n (twoLevel c g₀ h₀)
+    let g := (gLevSeq D E K floor g₀ h₀ (n-1)).1
+    let h := (gLevSeq D E K floor g₀ h₀ (n-1)).2
+    let v := sphVar K E g h
+    (g + K * h = 1 ∧ 0 < h ∧ h ≤ floor * g)
+      ∧ h < g ∧ 0 < v
+      ∧ (∀ k, Spiked (θ.c k).1 (a k) floor)
+      ∧ (∀ k, (∀ d, rd (θ.c k).2.mean d = ∑ j, (if j = k then g else h) * b j d) ∧ (θ.c k).2.var = v)
+      ∧ (∀ k j, j ≠ k → ∑ d, (rd (θ.c k).2.mean d - b k d) ^ 2 < ∑ d, (rd (θ.c k).2.mean d - b j d) ^ 2)
+      ∧ ∀ obs, vargmax (fun k => eStep tiny fam θ yz k obs) = c obs :=
+  Gcacg.fixed_point_gcacg_balanced sc hb hy hK eigh tiny floor tinyG log2pi heigh htiny h10 ht hf0 hf1 rule tie htie eps s
+    S hS hbal hguard g₀ h₀ hgh hh0 hlt n hn
+
+/-- the same with the spatial stream `sliced` over `F` frequency bins (per-bin prototypes and cACG components, one
+Gaussian tied over the bins, every bin with the same class masses) — the instantiation `driver_em` executes -/
+theorem fixed_point_gcacg_sliced_balanced {F K N D E : Nat} {a : Fin F → Fin (K+1) → Fin (D+1) → ℂ}
+    {b : Fin (K+1) → Fin E → ℝ} {bin : Fin N → Fin F} {c : Fin N → Fin (K+1)} {z : Fin N → Fin (D+1) → ℂ}
+    {y : Fin N → Fin E → ℝ}
+    (sc : BinScene a bin c z) (hb : OrthoProtoR b)
+    (hy : ∀ n d, y n d = b (c n) d) (hK : 1 ≤ K) (hF : 0 < F)
+    (eigh : Tab (D+1) (Tab (D+1) ℂ) → Tab (D+1) (Tab (D+1) ℂ) × Tab (D+1) ℝ)
+    (tiny floor tinyG log2pi : ℝ) (heigh : EighOn eigh tiny z) (htiny : 0 < tiny)
+    (h10 : ((10 : ℕ) : ℝ) * tiny ≤ 1) (ht : tiny ≤ 1 / ((K+1 : ℕ) : ℝ)) (hf0 : 0 < floor) (hf1 : floor < 1)
+    (rule : WeightRule) (tie : Tying N) (htie : tie.uniform = true) (eps : ℝ) (s : Fin N → ℝ)
+    (Sb : Fin F → ℝ) (hSb : ∀ f, tiny ≤ Sb f)
+    (hbalb : ∀ f k, classMass c (fun n => if bin n = f then s n else 0) k = Sb f) (hguard : tinyG ≤ ∑ f, Sb f)
+    (g₀ h₀ : ℝ) (hgh : g₀ + K * h₀ = 1) (hh0 : 0 < h₀) (hlt : h₀ ≤ floor * g₀) (n : Nat) (hn : 1 ≤ n) :
+    let fam := prodFamily (sliced (F := F) (cacgFamily D eigh CovNorm.eigenvalue floor tiny)) (sphFamily E tinyG log2pi)
+    let yz : Fin N → (Fin F × (Fin (D+1) → ℂ)) × (Fin E → ℝ) := fun m => ((bin m, z m), y m)
+    let θ := fit tiny fam rule tie eps s yz n (twoLevel c g₀ h₀)
+    let g := (gLevSeq D E K floor g₀ h₀ (n-1)).1
+    let h := (gLevSeq D E K floor g₀ h₀ (n-1)).2
+    let v := sphVar K E g h
+    (g + K * h = 1 ∧ 0 < h ∧ h ≤ floor * g)
+      ∧ h < g ∧ 0 < v
+      ∧ (∀ k f, Spiked (rd (θ.c k).1 f) (a f k) floor)
+      ∧ (∀ k, (∀ d, rd (θ.c k).2.mean d = ∑ j, (if j = k then g else h) * b j d) ∧ (θ.c k).2.var = v)
+      ∧ (∀ k j, j ≠ k → ∑ d, (rd (θ.c k).2.mean d - b k d) ^ 2 < ∑ d, (rd (θ.c k).2.mean d - b j d) ^ 2)
+      ∧ ∀ obs, vargmax (fun k => eStep tiny fam θ yz k obs) = c obs :=
+  GcacgSliced.fixed_point_gcacg_sliced_balanced sc hb hy hK hF eigh tiny floor tinyG log2pi heigh htiny h10 ht hf0 hf1
+    rule tie htie eps s Sb hSb hbalb hguard g₀ h₀ hgh hh0 hlt n hn
+
+end gcacg_fixed_point
 
 end PbBss.C03
